@@ -21,7 +21,7 @@ func init() { register("C13", checkC13) }
 
 func checkC13(c *Ctx) {
 	r, p := c.R, c.P
-	r.Explanation = "Decides structural necessary conditions of C13. Constructs are resolved by role from the exported API (fifo.Mutex/New/NewMap, cmap.NewMutex, lock.Context, lock.OuterCancel and their exported methods) through types and dataflow (also inside nested unexported helper structs), never by unexported names. Path rules run on a path-sensitive explorer that follows, as if inlined, same-module callees, closures, method values/expressions, func-typed fields and package variables assigned once, elements of literal tables (counted loops unrolled), interface calls with a known or single implementation, the argument of sync.Once.Do, range-over-func loops (yield body zero times and once for maps/slices iterators), deferred calls and goroutines spawned while a request is handled, and resolves values along the path (phis, parameters, bindings, call results, variable cells, fields of local structs). (G) the per-key tables of the fifo map and the cmap mutex map, the fifo entry count (when entries are held by pointer) and OuterCancel's reader table/index are only touched under their table lock; loading a never-reassigned map field itself needs no lock; (DC) a per-key lock is inserted only while the table write lock is held and the key was observed absent under that same hold (writing back the entry looked up under the same hold is not an insertion); (B) Lock/RLock of the maps acquire a per-key lock in the required mode on every returning path and never while the table lock is held; (RC) an entry is removed only under a count==0 observation (or ==1 followed by the decrement) of the current count made under the same hold (the cmap map keeps no count: DeleteUnlock/DeleteRUnlock are known findings, bare Delete/Clear are NOTE only); (P) the fifo map's Lock counts the caller in exactly once, in the critical section that looked the entry up, before blocking, and Unlock counts it out exactly once (entries held by value: the adjusted copy is written back); (CAP) the channel mutexes are created with capacity exactly 1 (traced to their make through constants, helpers and parameters) and fifo.Mutex.Lock sends / Unlock receives on every path; (CTX) lock.Context: a nil return holds token+RWMutex, any other return holds nothing, an error return exists, Unlock/RUnlock release both; (OC) OuterCancel's request loop: at the end of every request the slot is released or its release was handed out in the response and the loop never receives from the slot while not occupying it, an error response is sent holding nothing, the writer grant is sent with the slot held after the cancel fan-out and a wg.Wait made while holding the slot, a reader is counted in (wg.Add(1)) while the loop occupies the slot before it is answered, the reader release does wg.Done at most once (a state location observed and changed under one hold of the table lock, sync.Once, an atomic swap/CAS or a closed-channel test), removes its table entry and cancels with the configured cause before the wg.Done that lets the writer go, the function registered in the reader table reaches the cancellation only after a blocking wait on {timer(gracefulTimeout) started in that function, shutdown channel, channel closed by the release}, the loop's wait for the slot on behalf of a request that may carry a context is a select that also has that context's Done channel (requests known to carry none wait unconditionally), and every exported requester (Lock/RLock), once its request was handed to the loop, receives the reply before returning (or leaves through the shutdown case). Unresolved roles, unrecognised shapes and calls that cannot be followed give UNDECIDED, never VIOLATION. NOT decided: mutual exclusion and FIFO order as runtime facts (FIFO rests on the Go runtime's channel queue order), cancellation causes over all histories, grace timing."
+	r.Explanation = "Decides structural necessary conditions of C13. Constructs are resolved by role from the exported API (fifo.Mutex/New/NewMap, cmap.NewMutex, lock.Context, lock.OuterCancel and their exported methods) through types and dataflow (also inside nested unexported helper structs), never by unexported names. Path rules run on a path-sensitive explorer that follows, as if inlined, same-module callees, closures, method values/expressions, func-typed fields and package variables assigned once, elements of literal tables (counted loops unrolled), interface calls with a known or single implementation, the argument of sync.Once.Do, range-over-func loops (yield body zero times and once for maps/slices iterators), deferred calls and goroutines spawned while a request is handled, and resolves values along the path (phis, parameters, bindings, call results, variable cells, fields of local structs). (G) the per-key tables of the fifo map and the cmap mutex map, the fifo entry count (when entries are held by pointer) and OuterCancel's reader table/index are only touched under their table lock; loading a never-reassigned map field itself needs no lock; (DC) a per-key lock is inserted only while the table write lock is held and the key was observed absent under that same hold (writing back the entry looked up under the same hold is not an insertion); (B) Lock/RLock of the maps acquire a per-key lock in the required mode on every returning path and never while the table lock is held; (RC) an entry is removed only under a count==0 observation (or ==1 followed by the decrement) of the current count made under the same hold (the cmap map keeps no count: DeleteUnlock/DeleteRUnlock are known findings, bare Delete/Clear are NOTE only); (P) the fifo map's Lock counts the caller in exactly once, in the critical section that looked the entry up, before blocking, and Unlock counts it out exactly once (entries held by value: the adjusted copy is written back); (CAP) the channel mutexes are created with capacity exactly 1 (traced to their make through constants, helpers and parameters) and fifo.Mutex.Lock sends / Unlock receives on every path; (CTX) lock.Context: a nil return holds token+RWMutex, any other return holds nothing, an error return exists, Unlock/RUnlock release both; (OC) OuterCancel's request loop: at the end of every request the slot is released or its release was handed out in the response and the loop never receives from the slot while not occupying it, an error response is sent holding nothing, the writer grant is sent with the slot held after the cancel fan-out and a wg.Wait made while holding the slot, a reader is counted in (wg.Add(1)) while the loop occupies the slot before it is answered, the reader release does wg.Done at most once (a state location observed and changed under one hold of the table lock, sync.Once, an atomic swap/CAS or a closed-channel test), removes its table entry and cancels with the configured cause before the wg.Done that lets the writer go, the function registered in the reader table reaches the cancellation only after a blocking wait on {timer(gracefulTimeout) started in that function, shutdown channel, channel closed by the release}, the loop's wait for the slot on behalf of a request that may carry a context is a select that also has that context's Done channel (requests known to carry none wait unconditionally), every exported requester that is given a context hands its request over in a select that also has that context's Done channel, and every exported requester (Lock/RLock), once its request was handed to the loop, receives the reply before returning (or leaves through the shutdown case). Unresolved roles, unrecognised shapes and calls that cannot be followed give UNDECIDED, never VIOLATION. NOT decided: mutual exclusion and FIFO order as runtime facts (FIFO rests on the Go runtime's channel queue order), cancellation causes over all histories, grace timing."
 	r.Assumptions = append(r.Assumptions, "type-based lock identity: all per-key locks of one table are one abstract lock", "blocked senders on a channel are served in arrival order by the Go runtime (FIFO claim rests on this; not analysed)", "objects of one type are not distinguished (one abstract entry / reader per type)")
 	r.Rule("C13.G-guard", "per-key tables and refcounts only under the table lock", 9)
 	r.Rule("C13.DC-double-checked-create", "a per-key lock is inserted into the table only in the critical section that (re-)checked its absence", 3)
@@ -30,7 +30,7 @@ func checkC13(c *Ctx) {
 	r.Rule("C13.P-count-pairing", "fifo map Lock increments the entry count exactly once before blocking; Unlock decrements exactly once", 2)
 	r.Rule("C13.CAP-chan-mutex", "channel mutexes have capacity 1; Lock sends, Unlock receives, unconditionally", 5)
 	r.Rule("C13.CTX-context-lock", "lock.Context: error return holds nothing, nil return holds token+RWMutex; unlock releases both", 4)
-	r.Rule("C13.OC-outercancel", "OuterCancel hold handling: slot released or handed out per path; cancellable wait; writer waits for readers; reader accounting once; requesters collect the reply", 10)
+	r.Rule("C13.OC-outercancel", "OuterCancel hold handling: slot released or handed out per path; cancellable wait; writer waits for readers; reader accounting once; requesters hand over cancellably and collect the reply", 11)
 
 	e := c.Locks()
 	ro := resolveC13Roles(p)
@@ -97,6 +97,7 @@ func checkC13(c *Ctx) {
 	})
 	c.Fixture("c13x", func(fp *Prog, fr *Report) { c13Fixture(fp, fr) })
 	c.Fixture("c13rel", func(fp *Prog, fr *Report) { c13ReleaseFixture(fp, fr) })
+	c.Fixture("c13req", func(fp *Prog, fr *Report) { c13RequesterFixture(fp, fr) })
 }
 
 // ---------------------------------------------------------------------------
